@@ -102,3 +102,26 @@ def robust_scales(acc, dt, periods, u_ref, v_ref):
     fu = amax * np.minimum(dt * dt / 2, 1.0 / w ** 2)
     fv = amax * np.minimum(dt, 1.0 / w)
     return np.maximum(pu, fu), np.maximum(pv, fv), pu > fu, pv > fv
+
+
+def lib_scales(acc, dt, periods, xi, ru, rv):
+    """Robust per-period scales (u, v, third series) from *library* series (used by metamorphic clauses)."""
+    amax = float(np.max(np.abs(acc))) if len(acc) else 0.0
+    w = 2 * np.pi / np.asarray(periods, dtype=float)
+    su = np.maximum(np.max(np.abs(ru), axis=1), amax * np.minimum(dt * dt / 2, 1.0 / w ** 2))
+    sv = np.maximum(np.max(np.abs(rv), axis=1), amax * np.minimum(dt, 1.0 / w))
+    sa = 2 * xi * w * sv + w ** 2 * su
+    return su, sv, sa
+
+
+def perturbation_bounds(abs_err_sum, dt, n, periods, xi):
+    """Sound bound on the response (u, v, third series) to an input perturbation e with sum_j |e_j| = abs_err_sum:
+    |u_e| <= dt*sum|e|*max|h|, |h(t)| <= min(t, 1/w_d);  |v_e| <= 2*dt*sum|e| (|h'| <= 1/sqrt(1-xi^2) capped by the
+    critically damped limit, a factor 2 covers both)."""
+    w = 2 * np.pi / np.asarray(periods, dtype=float)
+    wd = w * np.sqrt(max(1e-300, 1.0 - xi * xi))
+    hmax = np.minimum(n * dt, 1.0 / wd)
+    bu = dt * abs_err_sum * hmax
+    bv = 2.0 * dt * abs_err_sum * np.ones_like(w)
+    ba = 2 * xi * w * bv + w ** 2 * bu
+    return bu, bv, ba
